@@ -919,7 +919,7 @@ def _emit_update_statements(
 
                 rows += c.rowcount
 
-                for (
+                for i, (
                     state,
                     state_dict,
                     params,
@@ -928,7 +928,7 @@ def _emit_update_statements(
                     value_params,
                     has_all_defaults,
                     has_all_pks,
-                ) in records:
+                ) in enumerate(records):
                     if bookkeeping:
                         _postfetch(
                             mapper,
@@ -937,7 +937,7 @@ def _emit_update_statements(
                             state,
                             state_dict,
                             c,
-                            c.context.compiled_parameters[0],
+                            c.context.compiled_parameters[i],
                             value_params,
                             True,
                             (
